@@ -4,6 +4,8 @@ from props.parts import _cratesv1
 LEAN_MODULES = ["Properties.C08V1"]
 THEOREMS = ["EngineModel.Properties.C08V1." + t for t in [
     "C08_refines",
+    "C08_refines_from_wellformed",
+    "C08_frame_from_wellformed",
     "C08_contents_wellformed",
     "C08_frame",
     "C08_add_track",
